@@ -96,8 +96,8 @@ def check_struct(acc, xs, cls, ctx, order, seen=None):
         ws = wire_schema(cls)
     except SchemaContractError as e:
         return bad("generated-class-breaks-metadata-contract", "documented contract", str(e)[:300])
-    if ws.flexible != xs.flexible:
-        return bad("flexibility", str(xs.flexible), str(ws.flexible))
+    if ws.declared_flexible != xs.flexible:
+        return bad("flexibility", str(xs.flexible), str(ws.declared_flexible))
     if [f.name for f in ws.fields] != [f.pyname for f in xs.fields]:
         return bad("field-names-or-order", str([f.pyname for f in xs.fields]), str([f.name for f in ws.fields]))
     for xf, kf in zip(xs.fields, ws.fields):
